@@ -108,6 +108,10 @@ func Load() (*Program, error) {
 		"GOTOOLCHAIN=local", "GO111MODULE=on")
 
 	fset := token.NewFileSet()
+	overlay, err := overlayFromEnv(repo)
+	if err != nil {
+		return nil, err
+	}
 	cfg := &packages.Config{
 		Mode:       packages.LoadAllSyntax,
 		Dir:        repo,
@@ -115,6 +119,7 @@ func Load() (*Program, error) {
 		Env:        env,
 		BuildFlags: []string{"-modfile=" + filepath.Join(work, "alt.mod")},
 		Tests:      false,
+		Overlay:    overlay,
 	}
 	roots, err := packages.Load(cfg, "./...")
 	if err != nil {
@@ -149,6 +154,30 @@ func Load() (*Program, error) {
 		return nil, fmt.Errorf("only %d module packages loaded (expected >= 100)", len(p.Module))
 	}
 	return p, nil
+}
+
+// ErrOverlaySkipped is returned when a self-test mutant's old fragment does not occur
+// (exactly once) in the file any more.
+var ErrOverlaySkipped = fmt.Errorf("overlay: old fragment not found exactly once")
+
+// overlayFromEnv builds a go/packages overlay from VERIF_OVERLAY_FILE (path relative to the
+// repository), VERIF_OVERLAY_OLD and VERIF_OVERLAY_NEW: the self-test applies one seeded
+// mutant without copying the repository.
+func overlayFromEnv(repo string) (map[string][]byte, error) {
+	rel := os.Getenv("VERIF_OVERLAY_FILE")
+	if rel == "" {
+		return nil, nil
+	}
+	path := filepath.Join(repo, rel)
+	b, err := os.ReadFile(path)
+	if err != nil {
+		return nil, ErrOverlaySkipped
+	}
+	old, new := os.Getenv("VERIF_OVERLAY_OLD"), os.Getenv("VERIF_OVERLAY_NEW")
+	if strings.Count(string(b), old) != 1 {
+		return nil, ErrOverlaySkipped
+	}
+	return map[string][]byte{path: []byte(strings.Replace(string(b), old, new, 1))}, nil
 }
 
 // Pkg returns the module package with the given path relative to the module root
